@@ -184,6 +184,25 @@ def check_matrix(repo, rep, uni, ad):
                        '(%s) instead of giving "no matching function"' % (
                            (a, b), name, o.func.key if o else ''),
                        loc=o.func.module.loc(o.func.node) if o else '')
+    # (5) null is not an arithmetic operand ("operands of unrelated types
+    # give a 'no matching function' error rather than a value")
+    for name in ARITH:
+        for a in ('null',) + SCALARS:
+            for pair in ((a, 'null'), ('null', a)):
+                n += 1
+                o = admitted(name, pair)
+                rep.ob('R15a', '%s/rejects%s' % (name, list(pair)),
+                       o is None,
+                       'the arithmetic operator %s accepts the operands %s '
+                       '(%s): null must not be taken for a number or a '
+                       'string' % (name.split('_')[-1], pair,
+                                   o.func.key if o else ''),
+                       loc=o.func.module.loc(o.func.node) if o else '')
+    for name in UNARY:
+        n += 1
+        o = admitted(name, ('null',))
+        rep.ob('R15a', '%s/rejects[null]' % name, o is None,
+               '%s accepts null (%s)' % (name, o.func.key if o else ''))
     for name in UNARY:
         for a in ('bool', 'str'):
             n += 1
@@ -431,6 +450,73 @@ def check_scalar_overloads_plain(repo, rep, ops, ad, uni):
     rep.floor('equality overloads', found, 2)
 
 
+def check_declared_types_decide(repo, rep, ops, uni, ad):
+    """R15g: the kind matrix is computed from the *declared* types
+    (python types, exclusions, validators) under the generic checker of
+    PythonType / GenericType.  A scalar smart type that overrides check()
+    may accept a value only when the inherited check accepts it too --
+    otherwise what the declarations say is not what runs."""
+    YT = 'yaql.language.yaqltypes'
+    classes = {}
+    for name, ovs in ops.items():
+        for o in ovs:
+            for p in visible(o):
+                if p.type.lazy or not any(ad.admits(p.type, k)
+                                          for k in SCALARS):
+                    continue      # not a scalar operand
+                todo = [p.type]
+                while todo:
+                    td = todo.pop()
+                    todo.extend(td.sub or [])
+                    ci = repo.lookup(td.cls) if td.cls else None
+                    if isinstance(ci, model.ClassInfo):
+                        classes[ci.key] = ci
+    n = 0
+    for ci in classes.values():
+        for c in repo.mro(ci):
+            if not isinstance(c, model.ClassInfo):
+                continue
+            if c.dotted in (YT + '.PythonType', YT + '.GenericType',
+                            YT + '.SmartType'):
+                break
+            m = c.methods.get('check')
+            if m is None:
+                continue
+            n += 1
+            bad = []
+            for r in model.walk_shallow(m.node):
+                if not isinstance(r, ast.Return) or r.value is None:
+                    continue
+                v = norm.subst_locals(m.node, r.value, only_pure=False)
+                if isinstance(v, ast.Constant) and not v.value:
+                    continue
+
+                def needs_super(e):
+                    if isinstance(e, ast.BoolOp):
+                        if isinstance(e.op, ast.And):
+                            return any(needs_super(x) for x in e.values)
+                        return all(needs_super(x) for x in e.values)
+                    if isinstance(e, ast.IfExp):
+                        return needs_super(e.body) and needs_super(e.orelse)
+                    if isinstance(e, ast.Constant):
+                        return not e.value
+                    return isinstance(e, ast.Call) and isinstance(
+                        e.func, ast.Attribute) and e.func.attr == 'check' \
+                        and isinstance(e.func.value, ast.Call) and \
+                        model.norm(e.func.value.func) == 'super'
+                if not needs_super(v):
+                    bad.append(model.norm(r).split('\n')[0][:80])
+            rep.ob('R15g', c.key + '.check', not bad,
+                   '%s.check can accept a value without the inherited '
+                   'check accepting it (`%s`): the declared python types / '
+                   'validators (e.g. "not a bool") no longer decide what '
+                   'the operators admit' % (c.node.name, '; '.join(bad)),
+                   loc=c.module.loc(m.node), construct='; '.join(bad))
+    rep.ob('R15g', 'scalar-smart-types/analysed', True,
+           '%d check() overrides among the types of the scalar operators' %
+           n, nontrivial=False)
+
+
 def check_int_division(repo, rep):
     m = repo.module('yaql.standard_library.math')
     div = m.func('division')
@@ -515,6 +601,9 @@ def run(repo, rep):
              'declaration order (or the mirrored comparison)')
     rep.rule('R15e', 'INT-DIVISION: both-int division uses //, modulo uses '
              '%')
+    rep.rule('R15g', 'DECLARED-TYPES-DECIDE: a check() override on a type '
+             'used by the scalar operators only narrows the inherited '
+             'check')
     rep.rule('R15f', 'SCALAR-OVERLOADS-ARE-PLAIN: the number x number and '
              'str x str overloads of the ordering and +,-,*,mod operators '
              'consist of the plain python operation; *equal/*not_equal are '
@@ -536,5 +625,6 @@ def run(repo, rep):
     check_wrappers(repo, rep, ops, ad)
     check_int_division(repo, rep)
     check_scalar_overloads_plain(repo, rep, ops, ad, uni)
+    check_declared_types_decide(repo, rep, ops, uni, ad)
     rep.count(operator_names=len(ops),
               overloads=sum(len(v) for v in ops.values()))
